@@ -318,6 +318,28 @@ func evalOp(c *mon.Ctx, g *groups.Group, op groups.Op, key string, pts []pp, rep
 	c.Check(op.Name, key+"/group-law-mismatch/"+special+"/"+cls, okRep && C.Eq(got, want), func() string {
 		return fmt.Sprintf("%s = %s -> %s, oracle says %s (ZZ^3==ZZZ^2: %v)", desc(), g.Str(out), C.String(got), C.String(want), okRep)
 	})
+	// the result is itself a value the library must accept: its own predicates, applied to the representation that
+	// was returned (not to a normalised copy), say "on the curve" and, when every operand is in the subgroup, "in
+	// the subgroup" - an identity returned as (X, Y, 0) with Y^2 != X^3 is refused by the library's own IsOnCurve
+	allSub := true
+	for _, p := range pts {
+		allSub = allSub && p.inSub
+	}
+	for _, pr := range g.Ops {
+		if pr.Out != "bool" || len(pr.In) != 1 || pr.In[0] != out.Sys || (pr.Sem != "oncurve" && pr.Sem != "insubgroup") {
+			continue
+		}
+		if pr.Sem == "insubgroup" && !allSub {
+			continue
+		}
+		var b groups.Rep
+		if c.Guard(key+"/result-refused-by/"+pr.Name+"/panic", desc, func() { b = pr.F([]groups.Rep{out}, nil) }) {
+			continue
+		}
+		c.Check(op.Name, key+"/result-refused-by/"+pr.Name+"/"+special, b.B, func() string {
+			return fmt.Sprintf("%s = %s (= %s): %s of this result is false", desc(), g.Str(out), C.String(got), pr.Name)
+		})
+	}
 	if len(pts) == 2 && c.Seed >= 0 {
 		c.SampleOnce(g.Name+"/"+op.Name, map[string]any{"group": g.Name, "op": op.Name, "operands": cls, "result": C.String(got)})
 	}
